@@ -1,5 +1,7 @@
 package main
 
+import "golang.org/x/tools/go/ssa"
+
 func init() { register("C01", checkC01) }
 
 // C01 — AOL records are append-only: immutable, never deleted, densely numbered.
@@ -16,4 +18,5 @@ func checkC01(p *Prog, r *Report) {
 		return false
 	})
 	wireAolStore(p, r, "C01")
+	r.Floor("in-loop-decode-targets(x/aol)", checkLoopFreshDecode(p, r, "C01", func(fn *ssa.Function) bool { return InPkgs(fn, "x/aol") }), 4)
 }
